@@ -963,12 +963,24 @@ def r7(F, R):
             return False
         R.check(_param(ob, "feat") in recv.params and any(looks_up(tt) for _, tt in recv.calls), "route/run-level/feature-by-key", st,
                 "feature queue looked up by the event's feature", "the feature queue is not looked up by the event's own feature: the event lands in another feature's buffer")
-        want = {"rule": 1, "scenario": 2, "event": 4}
-        for nm, i in want.items():
-            sl = A.slice_back(ob, [t["args"][i]])
-            R.check(_param(ob, nm) in sl.params, f"route/run-level/passes-{nm}", st, f"passes `{nm}` down", f"the run-level insert_scenario_event does not pass its `{nm}` down to the feature queue")
+        # (positions are read off the callee's parameter names; the attempt — `retries` — is part of what is handed down: two attempts of one
+        # scenario can be buffered at the same time, each in a buffer of its own)
+        for nm, cal in (("rule", "rule"), ("scenario", "scenario"), ("retries", "retries"), ("event", "ev")):
+            ls = [l for l in ib.local_by_name(cal) if 1 <= l <= ib.arg_count] or [l for l in ib.local_by_name(nm) if 1 <= l <= ib.arg_count]
+            src_nm = "event" if nm == "retries" else nm       # (the run level reads the attempt off the event it is given: `event.retries`)
+            if len(ls) != 1 or not [l for l in ob.local_by_name(src_nm) if 1 <= l <= ob.arg_count]:
+                R.violation(f"route/run-level/passes-{nm}", st, f"the scenario-event routing no longer carries `{nm}`" + (": the buffers are keyed by the scenario alone, so a retried "
+                            "attempt that starts while the previous one is still buffered shares its buffer — its events are dropped with the first `Finished`" if nm == "retries" else ""))
+                continue
+            i = ls[0] - 1
+            sl = A.slice_back(ob, [t["args"][i]]) if i < len(t["args"]) else None
+            R.check(sl is not None and _param(ob, src_nm) in sl.params and (nm != "retries" or any(n_ == "retries" for _, n_ in sl.fields)), f"route/run-level/passes-{nm}", st, f"passes `{nm}` down",
+                    f"the run-level insert_scenario_event does not pass its `{nm}` down to the feature queue")
     # feature level: two buffers, chosen by `rule` — on the routine's path table (map operations opaque, private helpers inlined)
     from . import deep as DD
+    if not [l for l in ib.local_by_name("retries") if 1 <= l <= ib.arg_count]:
+        R.violation("route/feature-level/keyed-by-attempt", ib, "the feature-level insert_scenario_event has no `retries` to key the scenario's buffer with: attempts of one scenario share a buffer")
+        return
     rule_l, sc_l, re_l, ev_l = _param(ib, "rule"), _param(ib, "scenario"), _param(ib, "retries"), _param(ib, "ev")
     rows_ = DD.Deep(F, ib, opaque=r"LinkedHashMap::|linked_hash_map::", max_paths=200).run()
     if not rows_ or any(p.cut for p in rows_):
